@@ -1233,6 +1233,11 @@ int Interpret::interpPipe() {
             // Read EOF
             if (par > 0 or inString or inQuotedSymbol) {
                 notify_formatted(true, "pipe reader: unexpected end of input inside a command");
+            } else if (rd_head > 0) {
+                // Text after the last command: only white space and comments may be left, anything else is what
+                // the parser of a file would reject
+                Smt2newContext context(buf);
+                if (osmt_yyparse(&context) != 0) { notify_formatted(true, "syntax error"); }
             }
             break;
         }
